@@ -416,6 +416,10 @@ func runAtt(c *AttCase, ft *feat) *report.Failure {
 	}
 	m := poolmodel.NewAttPool()
 	ctx := context.Background()
+	// a result list is the caller's: it must still say the same after any later call (query or add)
+	var prevGot []*phase0.Attestation
+	var prevRet []poolmodel.Returned
+	var prevWhat string
 	search := func(slot, comm *uint64) *report.Failure {
 		var opts []pool.AttSearchOption
 		if slot != nil {
@@ -435,6 +439,17 @@ func runAtt(c *AttCase, ft *feat) *report.Failure {
 		if len(ret) > 0 {
 			ft.add("search-nonempty")
 		}
+		if len(prevGot) > 0 {
+			now, f := toReturned(prevGot)
+			if f != nil || !reflect.DeepEqual(now, prevRet) {
+				return report.Failf("Search/earlier-result-changed", "the %d-item list returned by the earlier %s reads differently after a later Search(slot=%s, committee=%s): it was %v, it is now %v",
+					len(prevGot), prevWhat, optStr(slot), optStr(comm), ids(prevRet), ids(now))
+			}
+			if len(ret) > 0 {
+				ft.add("search-result-held-across-a-later-nonempty-search")
+			}
+		}
+		prevGot, prevRet, prevWhat = got, ret, fmt.Sprintf("Search(slot=%s, committee=%s)", optStr(slot), optStr(comm))
 		return fromProblem(m.CheckSearch(slot, comm, ret))
 	}
 	conflictSeen := false
@@ -535,6 +550,14 @@ func runAtt(c *AttCase, ft *feat) *report.Failure {
 		}
 	}
 	return nil
+}
+
+func ids(rs []poolmodel.Returned) []string {
+	out := make([]string, len(rs))
+	for i := range rs {
+		out[i] = fmt.Sprintf("%.10s…(slot %d, committee %d, %d bits)", rs[i].ID, rs[i].Slot, rs[i].Comm, len(rs[i].Bits))
+	}
+	return out
 }
 
 func optStr(p *uint64) string {
@@ -1499,7 +1522,7 @@ func TestCheck(t *testing.T) {
 	if r.Replay != "" {
 		return
 	}
-	r.Mandatory("pool:att", "pool:exit", "pool:propslash", "pool:attslash", "pool:sync", "pool:select",
+	r.Mandatory("att:search-result-held-across-a-later-nonempty-search", "pool:att", "pool:exit", "pool:propslash", "pool:attslash", "pool:sync", "pool:select",
 		"att:mixed-singles-aggregates+prune-after-conflict", "att:bitlen-mismatch", "att:search-every-filter-combination", "att:readd-after-prune",
 		"pool:bits", "bits:single:one", "bits:single:none", "bits:single:several", "bits:single:committee-mismatch", "bits:covers:length-mismatch", "bits:covers:strict-superset", "bits:covers:not-covered", "bits:or", "bits:bitvector",
 		"ops:duplicate+conflict", "sync:add-before-first-reset", "sync:reset-forward+backward+same+jump", "select:member-without-message")
@@ -1524,6 +1547,9 @@ func TestCheck(t *testing.T) {
 			}
 			if ft.has("search-none", "search-slot", "search-comm", "search-slot+comm") {
 				r.Hit("att:search-every-filter-combination")
+			}
+			if ft.has("search-result-held-across-a-later-nonempty-search") {
+				r.Hit("att:search-result-held-across-a-later-nonempty-search")
 			}
 			if ft.has("prune-removes") && readdAfterPrune(c.Att) {
 				r.Hit("att:readd-after-prune")
